@@ -19,10 +19,16 @@ Ltac trig_ring := match goal with
   | H1 : _ * _ = 1 - _ |- _ => first [ring [H1] | field [H1] | (field_simplify_eq; ring [H1])]
   end.
 Ltac solve_entry := first [ field | ring | trig_ring | lazymatch goal with |- ?a = ?a => reflexivity end ].
+Ltac pc_zero := intros; autounfold with gen; ops_R; trig_abs; repeat split;
+  (let H := fresh "H" in intro H;
+   match type of H with ?b < ?a =>
+     let E := fresh "E" in assert (E : a = 0) by solve_entry; rewrite E in H; lra end).
 Ltac law := intros; unfold halves_eq; autounfold with gen; ops_R; cbn [firstn skipn]; trig_abs; list_eq solve_entry.
 
 Definition mueller_spec (j : M2) (r c : nat) : R :=
   cre (cscale (/2) (m2trace (m2mul (sigma c) (m2mul (m2herm j) (m2mul (sigma r) j))))).
+Lemma pc_mueller_lin j00r j00i j01r j01i j10r j10i j11r j11i : mueller_lin_pc (OO:=ROps) j00r j00i j01r j01i j10r j10i j11r j11i.
+Proof. pc_zero. Qed.
 Lemma tie_mueller_lin j00r j00i j01r j01i j10r j10i j11r j11i :
   mueller_lin (OO:=ROps) j00r j00i j01r j01i j10r j10i j11r j11i = grid16 (mueller_spec (M2of j00r j00i j01r j01i j10r j10i j11r j11i)).
 Proof.
